@@ -3,6 +3,7 @@
    universally quantified, no bounds. *)
 From Coq Require Import List Bool Arith ZArith Permutation.
 From ADV Require Import Base.Num C04.Model C04.Spec C04.ProofsDet C04.ProofsBS C04.ProofsPerm C04.ProofsGJ.
+From ADV Require Import C04.ProofsGJ2 C04.ProofsGJ3 C04.ProofsGJ4 C04.ProofsSing C04.ProofsInv C04.ProofsDet2 C04.ProofsEx.
 Import ListNotations.
 
 (* ---- (4) determinant ---- *)
@@ -97,16 +98,88 @@ Theorem back_substitution_nil_rhs :
     forall i, i < n -> mulSv K (seq 0 n) R (backsub (NumK K) n R None x0) i = f0 K.
 Proof. exact backsub_nil_correct. Qed.
 
-(* ---- (3) Gauss-Jordan: the row-operation invariant, step level ----
-   PARTIAL.  Proved: every elimination step "row p[j] -= c * row p[i]" of the forward phase,
-   as coded (columns k >= i of the selection only), preserves the solution set of
-   [a | x | b] on the selected sub-matrix for EVERY multiplier c, provided row p[i] is zero
-   left of column i (the shape the earlier steps establish), and with a non-zero pivot it
-   zeroes a[p[j],i].  Missing for the full statement gj_spec (A_S x' = x0_S, A_S b' = b0_S,
-   a' = I_S): the induction over the column loop and the shape invariant of the back phase;
-   until then the defining equations are decided per sampled case by the exact rational
-   residual goals KRes/KResV of the correspondence. *)
-Theorem gauss_jordan_elimination_step_sound_partial :
+(* ---- (3) Gauss-Jordan: the full theorem ----
+   gaussJordan.Run(a, x, b, Submatrix{msk}) over an arbitrary field, every n, every input, every
+   mask, every pivoting rule (fabs / fltb are uninterpreted): if no pivot is zero, the run returns
+   and its result satisfies the whole contract gj_spec_full:
+     A_S * x' = x0_S,  A_S * b' = b0_S,  a'_S = I_S,  unselected rows untouched, result well-shaped,
+     entries (r selected, k unselected) of a and x are moved with their rows by the final gather
+     (a'[r,k] = a0[p[r],k], x'[r,k] = x0[p[r],k], p = the accumulated pivot permutation), and for
+     x0_S = I_S also x'_S * A_S = I_S.
+   Over a field [is_nan] is constantly false, so "the Go code does not take a singular exit" is
+   the hypothesis "no logged pivot is zero" (ghost log gj_pivots; see singular_* below for
+   what happens otherwise and SpecTest for the float exits). *)
+Theorem gauss_jordan_correct :
+  forall (K : fld) (dense : bool) (n : nat) (msk : list bool) (s0 s' : st (A:=K)),
+    wf_st K n s0 -> (forall c, In c (gj_pivots (NumK K) n msk s0) -> c <> f0 K) ->
+    gj_run (NumK K) dense false n msk s0 = Ok s' ->
+    gj_spec_full K n msk (fp (fwd (NumK K) n msk s0)) s0 s'.
+Proof. exact gj_run_correct. Qed.
+
+Theorem gauss_jordan_returns :
+  forall (K : fld) (dense : bool) (n : nat) (msk : list bool) (s0 : st (A:=K)),
+    wf_st K n s0 -> (forall c, In c (gj_pivots (NumK K) n msk s0) -> c <> f0 K) ->
+    exists s', gj_run (NumK K) dense false n msk s0 = Ok s'.
+Proof. exact gj_run_total. Qed.
+
+(* the hypotheses are satisfiable: the witness matrix of the repaired defect (pivot order = a
+   3-cycle), and a sub-matrix selection whose pivoting swaps rows inside the selection *)
+Example gauss_jordan_correct_nontrivial :
+  wf_st QcK 3 W0 /\ (forall c, In c (gj_pivots (NumK QcK) 3 (all_true 3) W0) -> c <> f0 QcK) /\
+  fp (fwd (NumK QcK) 3 (all_true 3) W0) = [2; 0; 1] /\
+  wf_st QcK 3 W1 /\ (forall c, In c (gj_pivots (NumK QcK) 3 [true;false;true] W1) -> c <> f0 QcK) /\
+  fp (fwd (NumK QcK) 3 [true;false;true] W1) = [2; 1; 0].
+Proof. exact (conj W0_wf (conj W0_pivots (conj W0_perm (conj W1_wf (conj W1_pivots W1_perm))))). Qed.
+
+(* gaussJordan.Run(..., UpperTriangular{true}): a upper triangular with non-zero diagonal on the
+   selection, x0 upper triangular on the selection (the code normalises x[i,k] only for k >= i) *)
+Theorem gauss_jordan_upper_triangular_correct :
+  forall (K : fld) (dense : bool) (n : nat) (msk : list bool) (s0 s' : st (A:=K)),
+    wf_st K n s0 ->
+    upper_tri_S K (idxs msk 0 n) (sa s0) -> diag_nonzero_S K (idxs msk 0 n) (sa s0) ->
+    upper_tri_S K (idxs msk 0 n) (sx s0) ->
+    gj_run (NumK K) dense true n msk s0 = Ok s' ->
+    gj_spec_full K n msk (seq 0 n) s0 s'.
+Proof. exact gj_run_ut_correct. Qed.
+
+Theorem gauss_jordan_upper_triangular_returns :
+  forall (K : fld) (dense : bool) (n : nat) (msk : list bool) (s0 : st (A:=K)),
+    wf_st K n s0 ->
+    upper_tri_S K (idxs msk 0 n) (sa s0) -> diag_nonzero_S K (idxs msk 0 n) (sa s0) ->
+    upper_tri_S K (idxs msk 0 n) (sx s0) ->
+    exists s', gj_run (NumK K) dense true n msk s0 = Ok s'.
+Proof. exact gj_run_ut_total. Qed.
+
+(* the two loop invariants the theorem is assembled from.
+   FORWARD: after the whole column loop (non-zero pivots) the invariant FInv holds at n: the state
+   is row-equivalent to the input (every solution of it solves the input system, for every
+   right-hand side column of x and for b), nothing outside the selection is written, p is a
+   permutation fixing the unselected rows, a is zero below the virtual diagonal, and the diagonal
+   entries are the logged pivots. *)
+Theorem forward_phase_invariant :
+  forall (K : fld) (n : nat) (msk : list bool) (s0 : st (A:=K)),
+    wf_st K n s0 -> (forall c, In c (gj_pivots (NumK K) n msk s0) -> c <> f0 K) ->
+    FInv K n msk s0 n (fwd (NumK K) n msk s0).
+Proof. exact fwd_FInv. Qed.
+
+(* BACK: from "upper triangular with non-zero diagonal in the virtual row order p" (BInv at n)
+   the back phase returns (no NaN exit over a field) a state with a_S = I_S in the virtual row
+   order (BInv at 0), again row-equivalent to the input; for every permutation p fixing the
+   unselected rows and both normalisation bounds (xlo = 0 / xlo = i). *)
+Theorem back_phase_invariant :
+  forall (K : fld) (n : nat) (msk : list bool) (p : list nat),
+    pfix n msk p ->
+    forall xlo : nat -> nat,
+    (forall j i, In j (idxs msk 0 n) -> In i (idxs msk 0 n) -> j < i -> xlo j <= xlo i) ->
+    forall s0 s : st (A:=K),
+    BInv K n msk p xlo s0 n s ->
+    exists s', back (NumK K) n msk p xlo s = Some s' /\ BInv K n msk p xlo s0 0 s'.
+Proof. exact back_correct. Qed.
+
+(* step level (round 1): every elimination step "row p[j] -= c * row p[i]" as coded (columns
+   k >= i of the selection only) preserves the solution set for EVERY multiplier c provided row
+   p[i] is zero left of column i, and with a non-zero pivot it zeroes a[p[j],i] *)
+Theorem gauss_jordan_elimination_step_sound :
   forall (K : fld) (n : nat) (msk : list bool) (p : list nat) (s : st (A:=K)) (i j : nat),
     wf_st K n s ->
     In (pget p j) (idxs msk 0 n) -> In (pget p i) (idxs msk 0 n) -> pget p i <> pget p j ->
@@ -114,7 +187,7 @@ Theorem gauss_jordan_elimination_step_sound_partial :
     imp K n msk (elim_row (NumK K) n i msk p s j) s.
 Proof. exact elim_row_imp. Qed.
 
-Theorem gauss_jordan_elimination_step_zeroes_partial :
+Theorem gauss_jordan_elimination_step_zeroes :
   forall (K : fld) (n : nat) (msk : list bool) (p : list nat) (s : st (A:=K)) (i j : nat),
     wf_st K n s -> pget p j < n -> pget p i < n -> pget p i <> pget p j -> In i (idxs msk 0 n) ->
     mget (NumK K) (sa s) (pget p i) i <> f0 K ->
@@ -143,3 +216,112 @@ Theorem row_scale_preserves_solutions :
     (forall c, okcol n msk c -> rhs K s' c t = fdiv K (rhs K s c t) c0) ->
     imp K n msk s' s.
 Proof. exact imp_scale. Qed.
+
+(* ---- (5) structurally singular input ----
+   Over a field: a zero row, a zero column or two identical rows in the selected sub-matrix make
+   it impossible that all logged pivots are non-zero — the elimination meets a zero pivot (the
+   place where the Go code divides 0/0 and takes its "computationally singular" exit, see
+   SpecTest.singular_float_dense, singular_float_generic).  The pivots depend on a only, so this holds for every x, b. *)
+Theorem singular_zero_row_hits_zero_pivot :
+  forall (K : fld) (n : nat) (msk : list bool) (s0 : st (A:=K)), wf_st K n s0 ->
+    forall r, zero_row K (idxs msk 0 n) (sa s0) r ->
+    ~ (forall c, In c (gj_pivots (NumK K) n msk s0) -> c <> f0 K).
+Proof. exact zero_row_zero_pivot. Qed.
+
+Theorem singular_zero_column_hits_zero_pivot :
+  forall (K : fld) (n : nat) (msk : list bool) (s0 : st (A:=K)), wf_st K n s0 ->
+    forall c, zero_col K (idxs msk 0 n) (sa s0) c ->
+    ~ (forall c, In c (gj_pivots (NumK K) n msk s0) -> c <> f0 K).
+Proof. exact zero_col_zero_pivot. Qed.
+
+Theorem singular_identical_rows_hit_zero_pivot :
+  forall (K : fld) (n : nat) (msk : list bool) (s0 : st (A:=K)), wf_st K n s0 ->
+    forall r1 r2, same_rows K (idxs msk 0 n) (sa s0) r1 r2 ->
+    ~ (forall c, In c (gj_pivots (NumK K) n msk s0) -> c <> f0 K).
+Proof. exact same_rows_zero_pivot. Qed.
+
+(* and whatever a run returns on such input, it is not a solution: no right inverse exists for a
+   zero row / identical rows, no left inverse for a zero column *)
+Theorem singular_zero_row_no_inverse :
+  forall (K : fld) (n : nat) (msk : list bool) (a x : list (list K)) r,
+    zero_row K (idxs msk 0 n) a r -> mulS K (idxs msk 0 n) a x r r <> f1 K.
+Proof. exact zero_row_no_right_inverse. Qed.
+
+Theorem singular_identical_rows_no_inverse :
+  forall (K : fld) (n : nat) (msk : list bool) (a x : list (list K)) r1 r2,
+    same_rows K (idxs msk 0 n) a r1 r2 ->
+    ~ (mulS K (idxs msk 0 n) a x r1 r1 = f1 K /\ mulS K (idxs msk 0 n) a x r2 r1 = f0 K).
+Proof. exact same_rows_no_right_inverse. Qed.
+
+Theorem singular_zero_column_no_inverse :
+  forall (K : fld) (n : nat) (msk : list bool) (a x : list (list K)) c,
+    zero_col K (idxs msk 0 n) a c -> mulS K (idxs msk 0 n) x a c c <> f1 K.
+Proof. exact zero_col_no_left_inverse. Qed.
+
+(* ---- (3') matrixInverse.Run ---- *)
+(* plain mode: X is a two-sided inverse of the selected block, identity rows outside, zero in
+   the (selected row, unselected column) entries *)
+Theorem matrix_inverse_correct :
+  forall (K : fld) (n : nat) (msk : list bool) (dense : bool) (m X : list (list K)),
+    wf_mat K n m ->
+    (forall c, In c (gj_pivots (NumK K) n msk (mkSt m (ident (NumK K) n) (ones (NumK K) n))) -> c <> f0 K) ->
+    m_inverse (NumK K) dense InvPlain n msk m = Ok X -> inv_spec K n msk m X.
+Proof. exact inverse_plain_correct. Qed.
+
+Theorem matrix_inverse_returns :
+  forall (K : fld) (n : nat) (msk : list bool) (dense : bool) (m : list (list K)),
+    wf_mat K n m ->
+    (forall c, In c (gj_pivots (NumK K) n msk (mkSt m (ident (NumK K) n) (ones (NumK K) n))) -> c <> f0 K) ->
+    exists X, m_inverse (NumK K) dense InvPlain n msk m = Ok X.
+Proof. exact inverse_plain_total. Qed.
+
+(* no Submatrix option: A * X = I and X * A = I *)
+Theorem matrix_inverse_whole_matrix :
+  forall (K : fld) (dense : bool) (n : nat) (m X : list (list K)),
+    wf_mat K n m ->
+    (forall c, In c (gj_pivots (NumK K) n (all_true n) (mkSt m (ident (NumK K) n) (ones (NumK K) n))) -> c <> f0 K) ->
+    m_inverse (NumK K) dense InvPlain n (all_true n) m = Ok X ->
+    (forall i j, i < n -> j < n -> mulS K (seq 0 n) m X i j = delta K i j) /\
+    (forall i j, i < n -> j < n -> mulS K (seq 0 n) X m i j = delta K i j).
+Proof. exact inverse_plain_full. Qed.
+
+Theorem matrix_inverse_upper_triangular_correct :
+  forall (K : fld) (n : nat) (msk : list bool) (dense : bool) (m X : list (list K)),
+    wf_mat K n m -> upper_tri_S K (idxs msk 0 n) m -> diag_nonzero_S K (idxs msk 0 n) m ->
+    m_inverse (NumK K) dense InvUT n msk m = Ok X -> inv_spec K n msk m X.
+Proof. exact inverse_ut_correct. Qed.
+
+Theorem matrix_inverse_upper_triangular_returns :
+  forall (K : fld) (n : nat) (msk : list bool) (dense : bool) (m : list (list K)),
+    wf_mat K n m -> upper_tri_S K (idxs msk 0 n) m -> diag_nonzero_S K (idxs msk 0 n) m ->
+    exists X, m_inverse (NumK K) dense InvUT n msk m = Ok X.
+Proof. exact inverse_ut_total. Qed.
+
+(* PositiveDefinite mode: (L L^T)^-1 through X = (L^T)^-1, R = X X^T.  HYPOTHESES about the Cholesky
+   factor (the subject of C05, not proved here): L lower triangular with non-zero diagonal and
+   L * L^T = m.  The selection must be a LEADING BLOCK (prefix_mask n q msk): for any other
+   selection the unchanged code returns something else — known finding F-C04-PD-SUBMATRIX,
+   SpecTest.inverse_pd_submatrix_refuted. *)
+Theorem matrix_inverse_positive_definite_correct :
+  forall (K : fld) (n : nat) (msk : list bool) (dense : bool) (q : nat) (m L R : list (list K)),
+    lower_tri K n L -> diag_nonzero K n L ->
+    (forall i j, i < n -> j < n ->
+        sumL K (seq 0 n) (fun k => fmul K (mget (NumK K) L i k) (mget (NumK K) L j k)) = mget (NumK K) m i j) ->
+    prefix_mask n q msk ->
+    cholesky (NumK K) n m (zmat (NumK K) n) = Ok L ->
+    m_inverse (NumK K) dense InvPD n msk m = Ok R ->
+    forall i j, In i (idxs msk 0 n) -> In j (idxs msk 0 n) -> mulS K (idxs msk 0 n) m R i j = delta K i j.
+Proof. exact inverse_pd_correct. Qed.
+
+(* ---- (4') the Laplace determinant (= determinantNaive) is linear in the first row, det I = 1 ----
+   (alternation is NOT proved: determinant_is_alternating is missing for "it is THE determinant") *)
+Theorem determinant_linear_in_first_row :
+  forall (K : fld) (n : nat) (r1 r2 r3 : list K) (c : K) (rest : list (list K)), 1 <= n ->
+    (forall j, j < n -> vget (NumK K) r3 j = fadd K (vget (NumK K) r1 j) (fmul K c (vget (NumK K) r2 j))) ->
+    det_naive (NumK K) n (r3 :: rest) =
+    fadd K (det_naive (NumK K) n (r1 :: rest)) (fmul K c (det_naive (NumK K) n (r2 :: rest))).
+Proof. intros. rewrite !det_naive_laplace by auto. apply det_first_row_linear; auto. Qed.
+
+Theorem determinant_identity :
+  forall (K : fld) (n : nat), 1 <= n -> det_naive (NumK K) n (ident (NumK K) n) = f1 K.
+Proof. intros. rewrite det_naive_laplace by auto. apply det_ident. Qed.
